@@ -182,3 +182,116 @@ def run(seed, n=6):
 if __name__ == "__main__":
     import sys
     print(run(int(sys.argv[1]) if len(sys.argv) > 1 else 1))
+
+
+# ------------------------------------------------------------------ scope of the no-internal-error theorem (C15b)
+
+SCOPE_FAM = progs.family(p_bad=0.0, w_malformed=0.0, p_items=0.25, p_retry=0.25, p_delay=0.15, p_input=0.4,
+                         p_loop=0.15, n_tasks=(2, 6), steps=(8, 30), w_ctrl=0.6, w_rerun=0.0, p_late_join=0.15,
+                         p_intermediate=0.05)
+INTERNAL = ("KeyError", "IndexError", "TypeError", "ValueError", "AttributeError")
+
+SCOPE_HEADER = """From Coq Require Import String List Bool ZArith Arith.
+From Orq Require Import GenStatuses Base State Machines Codec Conductor Decode Api Driver NoInternalProofs.
+Import ListNotations.
+Open Scope string_scope.
+Fixpoint all_some {A} (l : list (option A)) : option (list A) :=
+  match l with
+  | [] => Some []
+  | Some a :: l' => match all_some l' with Some r => Some (a :: r) | None => None end
+  | None :: _ => None
+  end.
+"""
+
+
+def scope_case(seed):
+    rng = random.Random(seed)
+    definition, inputs = progs.gen_definition(rng, SCOPE_FAM)
+    sess = provider.Session(definition, inputs, with_model=False)
+    try:
+        progs.run_history(sess, rng, SCOPE_FAM, progs.Oracle(seed, SCOPE_FAM))
+        api_ops = [op for op, _ in sess.trace]
+        internal = [o["raised"][0] for _, o in sess.trace if o["raised"] is not None and o["raised"][0] in INTERNAL]
+    finally:
+        sess.close()
+    m = RecordingModel(definition, inputs)
+    try:
+        for op in api_ops:
+            m._call(["op", op])
+    finally:
+        m.close()
+    return m.nspec, m.ngraph, inputs, api_ops, m.table, internal
+
+
+def scope_coq(idx, nspec, ngraph, inputs, api_ops, table, internal):
+    rows = []
+    for stmt, ctx, ans in table:
+        if ans[0] == "ok":
+            r = "EvOk %s" % coq_json(ans[1])
+        else:
+            r = "EvErr {| x_cls := %s; x_msg := %s; x_expr := %s |}" % (coq_str(ans[1]), coq_str(ans[2]),
+                                                                      "true" if ans[3] else "false")
+        rows.append("(%s, %s, %s)" % (coq_str(stmt), coq_json(ctx), r))
+    return """
+Definition table%(i)d : list (string * json * evalres) := [%(rows)s].
+Definition ev%(i)d (s : string) (ctx : dict) : evalres :=
+  match find (fun '(s', c', _) => String.eqb s s' && json_eqb (JDict ctx) c') table%(i)d with
+  | Some (_, _, r) => r
+  | None => EvErr {| x_cls := "TableMiss"; x_msg := s; x_expr := false |}
+  end.
+Definition result%(i)d : list bool :=
+  match start %(spec)s %(graph)s %(inputs)s (JDict []), all_some (map dec_op [%(ops)s]) with
+  | Some c0, Some (op1 :: ops) =>
+      let c1 := fst (api_exec ev%(i)d op1 c0) in
+      [ static_ok_b (c_spec c1) (c_graph c1); WF_b c1; hist_in_scope_b ev%(i)d ops c1 ]
+  | _, _ => []
+  end.
+Eval vm_compute in ("SCOPECHECK", %(i)d, result%(i)d).
+""" % {"i": idx, "rows": ";\n  ".join(rows), "spec": coq_json(nspec), "graph": coq_json(ngraph),
+       "inputs": coq_json(inputs), "ops": "; ".join(coq_json(op) for op in api_ops)}
+
+
+def run_scope(seed, n=6):
+    """How many generated conformant, rerun-free histories fall within the hypotheses of C15_no_internal_error_history
+    (static_ok, WF after boot, every call in scope and not malformed).  Returns (cases, in scope, failures): a run that
+    is in scope although the engine raised an internal error on it contradicts the theorem (or the model)."""
+    import re
+    parts, cases = [], []
+    for i in range(n * 3):
+        if len(cases) >= n:
+            break
+        try:
+            c = scope_case(seed * 1000 + 700 + i)
+            parts.append(scope_coq(len(cases), *c))
+            cases.append(c)
+        except ValueError:
+            continue
+    tmp = tempfile.mkdtemp(prefix="scopechk_")
+    try:
+        path = os.path.join(tmp, "scopecheck.v")
+        with open(path, "w") as f:
+            f.write(SCOPE_HEADER + "\n".join(parts))
+        p = subprocess.run(["flock", "-s", os.path.join(COQ, ".lock"), "timeout", "900", "coqc", "-Q",
+                            os.path.join(COQ, "gen"), "Orq", "-Q", os.path.join(COQ, "model"), "Orq", "-Q",
+                            os.path.join(COQ, "facts"), "Orq", "-Q", os.path.join(COQ, "proofs"), "Orq", path],
+                           stdout=subprocess.PIPE, stderr=subprocess.STDOUT, text=True, cwd=tmp)
+        out = " ".join(p.stdout.split())
+        if p.returncode != 0:
+            return len(cases), 0, [{"what": "the scope case file does not compile", "output": p.stdout[-1500:]}], {}
+        in_scope, fails, why = 0, [], {"static_ok": 0, "WF_after_boot": 0, "every_call_in_scope": 0}
+        for mm in re.finditer(r'\("SCOPECHECK", (\d+), \[([^\]]*)\]\)', out):
+            idx = int(mm.group(1))
+            flags = [x.strip() == "true" for x in mm.group(2).split(";")] if mm.group(2).strip() else []
+            if len(flags) != 3:
+                continue
+            for k, nm in enumerate(("static_ok", "WF_after_boot", "every_call_in_scope")):
+                why[nm] += 1 if flags[k] else 0
+            if all(flags):
+                in_scope += 1
+                if cases[idx][5]:
+                    fails.append({"what": "a history within the hypotheses of C15_no_internal_error_history on which the "
+                                          "engine raised %s" % cases[idx][5][:2], "ops": cases[idx][3],
+                                  "definition_spec": cases[idx][0]})
+        return len(cases), in_scope, fails, why
+    finally:
+        shutil.rmtree(tmp, ignore_errors=True)
